@@ -75,7 +75,7 @@ CLAIMS = {
                 "NamedCal and every CalType variant forward to the wrapped calendar; Cal's leaves are the mask/holiday membership tests; try_new's three "
                 "paths (lower-case before split, >2 parts Err, part 0 -> calendars, part 1 -> settlement) and parse_cals (one lookup per piece, ? "
                 "propagation); the behavioural equalities quantify over 1970-01-01..2200-12-31 and require both agreements on the same date."
-                ' Also included: R05.6 (Python-facing calendar methods). R06.5: the Python-facing __eq__ of the three calendar classes is the core == for every kind of right operand. The NamedCal loader rule (S20.2) and the storage rules of the calendar types (S16.2/3/7) are included; so is the table wiring of C07 (R07.1/R07.2: every name resolves to its own table; fed = nyc minus Good Friday).',
+                ' Also included: R05.6 (Python-facing calendar methods). R06.5: the Python-facing __eq__ of the three calendar classes is the core == for every kind of right operand. The NamedCal loader rule (S20.2) and the storage rules of the calendar types (S16.2/3/7) are included; so is the table wiring of C07 (R07.1/R07.2: every name resolves to its own table; fed = nyc minus Good Friday). R06.6: UnionCal::new stores its two lists as given.',
         "design_ref": "DESIGN.md §4 C06",
         "note": "Not decided: nothing about concrete dates (C07). Trusted: lib/cel.py quantifier model; cal_date_range being calendar independent is checked.",
         "technique": "symbolic evaluation with quantifier normal forms (NNF); path flattening; delegation tables",
@@ -200,7 +200,7 @@ CLAIMS = {
                 "models mirror the serialised fields; the tagged from_json entry point has a variant per writer and each writer wraps its own type; "
                 "pickling pairs serialise/restore the whole object; no bincode-hostile serde attribute; equality covers the serialised fields. These "
                 "are the structural necessary conditions of the round trip; equality of concrete objects is not evaluated."
-                " Also: S16.9 (a validating loader's Ok path demands exactly the shape invariant, so every constructible object loads back) and R10.4 (after update() the stored quotes are the updated ones). S16.10: every constructor code a pickle carries (__getnewargs__ of the u8-coded enums) is accepted by #[new]; S16.7 also requires that a rebuilding conversion returns the constructor's result unchanged. R06.3 is included (a named calendar stores the name it was given and parsed from).",
+                " Also: S16.9 (a validating loader's Ok path demands exactly the shape invariant, so every constructible object loads back) and R10.4 (after update() the stored quotes are the updated ones). S16.10: every constructor code a pickle carries (__getnewargs__ of the u8-coded enums) is accepted by #[new]; S16.7 also requires that a rebuilding conversion returns the constructor's result unchanged. R06.3 is included (a named calendar stores the name it was given and parsed from). S16.11: the loader of a type without a shape invariant (curves, plain/union calendars, quotes) has no refusing or aborting path.",
         "design_ref": "DESIGN.md §4 C16",
         "note": "Trusted: serde/serde_json/bincode/ndarray/indexmap serde implementations, cargo metadata. Not decided: numerical equality after a round "
                 "trip of concrete objects.",
@@ -212,7 +212,7 @@ CLAIMS = {
                 "reviewed table with the control depth it had when reviewed; types with a validating constructor must deserialise through a "
                 "panic-free validating conversion; struct literals of shape-constrained types are confined to reviewed constructors. "
                 "Quantifies over code sites, which is how 'for any input' is reached without running anything."
-                ' R20.1 judges sites per root function (closures and extracted private helpers absorbed) as a multiset against the reviewed budget; every row whose reason rests on a guard cites the rule deciding that guard, and C20 includes those rules (R15.2, R08.2/3/5, R03.1/3/5, R09.1/2, R05.4/5, R06.3, R10.4/6, R11.4). R20.6: every Ok path of a validating constructor/loader carries the shape invariant. Site rows whose review relies on a loop (`inside for i in 0..n`) record a minimum loop depth: a site hoisted out of its loop is reported. The entry list includes the pyo3 wrappers of the same operations (what a Python caller reaches).',
+                ' R20.1 judges sites per root function (closures and extracted private helpers absorbed) as a multiset against the reviewed budget; every row whose reason rests on a guard cites the rule deciding that guard, and C20 includes those rules (R15.2, R08.2/3/5, R03.1/3/5, R09.1/2, R05.4/5, R06.3, R10.4/6, R11.4). R20.6: every Ok path of a validating constructor/loader carries the shape invariant. Site rows whose review relies on a loop (`inside for i in 0..n`) record a minimum loop depth: a site hoisted out of its loop is reported. The entry list includes the pyo3 wrappers of the same operations (what a Python caller reaches). R13.3 (the least-squares shapes) and the storage rules S16.2/3/7 of every type are included.',
         "design_ref": "DESIGN.md §4 C20",
         "note": "Trusted: rustc MIR, the reviewed reasons in rules/c20_sites.json (classes L/I/R/K/S are human-reviewed; machine-checked part is "
                 "table membership + dominating-branch count), the denylist of aborting externals. Not decided: aborts inside dependencies outside "
